@@ -7,6 +7,24 @@
 namespace eng {
 rc::Gen<Case> case_gen(const std::string& profile, int aux_bytes = 0);
 
+// libFuzzer mode: every byte string is a script -- `aux_bytes` leading bytes, then one op per 8 bytes (code little-endian,
+// reduced modulo the profile's weight total by the interpreter; operands modulo the pool sizes).
+inline bool script_from_bytes(const std::uint8_t* d, std::size_t n, const std::string& profile_name, std::size_t aux_bytes, Case& c)
+{
+   c = Case{};
+   c.profile = profile_name;
+   if (n < aux_bytes + 8) return false;
+   c.aux.assign(d, d + aux_bytes);
+   const int total = profile(profile_name).total;
+   for (std::size_t i = aux_bytes; i + 8 <= n; i += 8) {
+      Op op;
+      op.code = std::uint16_t((unsigned(d[i]) | unsigned(d[i + 1]) << 8) % unsigned(total));
+      op.a = d[i + 2]; op.b = d[i + 3]; op.c = d[i + 4]; op.d = d[i + 5]; op.e = d[i + 6]; op.f = d[i + 7];
+      c.ops.push_back(op);
+   }
+   return true;
+}
+
 // Account for one fixed (enumerated) script.  A signature it shows that is not excluded yet is minimised first
 // (delta debugging over ops, in-process) so that the replay file is small; then the whole script is accounted.
 template<class Run>
